@@ -317,7 +317,7 @@ def project_entries(dt, ocfg, targets) -> list:
 
 def record_observation(ocfg: dict, variant: int = 0, scheduler: str | None = None, workers: int | None = None,
                        delay: float = 0.0, exc: str = "ValueError", per_entry: bool = False,
-                       force: list | None = None) -> dict:
+                       force: list | None = None, repeat: int = 1) -> dict:
     """Run the observation; return {ocfg, observed, events, meta}."""
     import dask
     import pyxel
@@ -333,68 +333,76 @@ def record_observation(ocfg: dict, variant: int = 0, scheduler: str | None = Non
         import traceback
         return {"ocfg": ocfg, "observed": observed, "meta": meta,
                 "events": [{"e": "harness-error", "why": traceback.format_exc()[-600:]}]}
-    before = snapshot_user(det, pipe, obs)
     events = []
-    dkw = {}
-    if scheduler:
-        dkw["scheduler"] = scheduler
-        if workers:
-            dkw["num_workers"] = workers
-    failed = None
-    stage = "run_mode"
-    dt = None
-    try:
-        with dask.config.set(**dkw):
-            dt = pyxel.run_mode(obs, det, pipe, with_inherited_coords=True)
-            stage = "compute"
-            if ocfg["dask"]:
-                dt = dt.compute()
-    except Exception as e:
-        failed = e
-    finally:
-        if tmpdir:
-            import shutil
-            shutil.rmtree(tmpdir, ignore_errors=True)
-    runs = [ev for ev in pm.SINK.events if ev["e"] == "run" and ev.get("job", JOB[0]) == JOB[0]]
-    for ev in runs:
-        events.append({k: v for k, v in ev.items() if k in ("e", "eff", "seenMem")} |
-                      ({"never": True} if ev.get("never") else {}))
-    if not observed:
-        events = []
-    after = snapshot_user(det, pipe, obs)
-    if failed is not None:
-        pe = px.project_exception(failed)
-        ev = {"e": "failed", "exc": pe["exc"], "msg": pe["msg"], "msgok": bool(pe["msg"] == msg and pe["exc"] == exc),
-              "stage": stage, "g": pe["g"], "name": pe["name"]}
-        # parameter values named in the notes (sequential execution)
-        noted = {}
-        for note in pe["notes"]:
-            for line in note.splitlines():
-                m = _NOTE_PARAM.match(line)
-                if m:
-                    noted[m.group(1)] = m.group(2)
-        if noted and not ocfg["dask"]:
-            import ast
-            en = [j for j, p in enumerate(ocfg["params"]) if p["enabled"]]
-            eff = []
-            for j in en:
-                txt = noted.get(targets[j]["key"])
-                try:
-                    val = ast.literal_eval(txt) if txt is not None else None
-                except Exception:
-                    val = txt
-                eff.append(token_of(targets[j], val) if txt is not None else UNKNOWN)
-            ev["eff"] = eff
-        events.append({"e": "user_after", "mem": det._memory.get("cnt", -1), "unchanged": before == after})
-        events.append(ev)
-    else:
+    for rep in range(repeat):
+        if rep:
+            # the same Observation, detector and pipeline objects are run once more (a session)
+            events.append({"e": "rerun"})
+            JOB[0] += 1
+            for model, key in ((pipe.photon_collection.models[0], "stamp"), (pipe.charge_measurement.models[0], "stamp2")):
+                model.arguments["_p"]["job"] = JOB[0]
+            pm.SINK.reset()
+        before = snapshot_user(det, pipe, obs)
+        dkw = {}
+        if scheduler:
+            dkw["scheduler"] = scheduler
+            if workers:
+                dkw["num_workers"] = workers
+        failed = None
+        stage = "run_mode"
+        dt = None
         try:
-            events += project_entries(dt, ocfg, targets)
-        except Exception:
-            import traceback
-            events.append({"e": "harness-error", "why": traceback.format_exc()[-600:]})
-        events.append({"e": "user_after", "mem": det._memory.get("cnt", -1), "unchanged": before == after})
-        events.append({"e": "done"})
+            with dask.config.set(**dkw):
+                dt = pyxel.run_mode(obs, det, pipe, with_inherited_coords=True)
+                stage = "compute"
+                if ocfg["dask"]:
+                    dt = dt.compute()
+        except Exception as e:
+            failed = e
+        finally:
+            if tmpdir and rep == repeat - 1:
+                import shutil
+                shutil.rmtree(tmpdir, ignore_errors=True)
+        runs = [ev for ev in pm.SINK.events if ev["e"] == "run" and ev.get("job", JOB[0]) == JOB[0]]
+        for ev in runs:
+            events.append({k: v for k, v in ev.items() if k in ("e", "eff", "seenMem")} |
+                          ({"never": True} if ev.get("never") else {}))
+        if not observed:
+            events = []
+        after = snapshot_user(det, pipe, obs)
+        if failed is not None:
+            pe = px.project_exception(failed)
+            ev = {"e": "failed", "exc": pe["exc"], "msg": pe["msg"], "msgok": bool(pe["msg"] == msg and pe["exc"] == exc),
+                  "stage": stage, "g": pe["g"], "name": pe["name"]}
+            # parameter values named in the notes (sequential execution)
+            noted = {}
+            for note in pe["notes"]:
+                for line in note.splitlines():
+                    m = _NOTE_PARAM.match(line)
+                    if m:
+                        noted[m.group(1)] = m.group(2)
+            if noted and not ocfg["dask"]:
+                import ast
+                en = [j for j, p in enumerate(ocfg["params"]) if p["enabled"]]
+                eff = []
+                for j in en:
+                    txt = noted.get(targets[j]["key"])
+                    try:
+                        val = ast.literal_eval(txt) if txt is not None else None
+                    except Exception:
+                        val = txt
+                    eff.append(token_of(targets[j], val) if txt is not None else UNKNOWN)
+                ev["eff"] = eff
+            events.append({"e": "user_after", "mem": det._memory.get("cnt", -1), "unchanged": before == after})
+            events.append(ev)
+        else:
+            try:
+                events += project_entries(dt, ocfg, targets)
+            except Exception:
+                import traceback
+                events.append({"e": "harness-error", "why": traceback.format_exc()[-600:]})
+            events.append({"e": "user_after", "mem": det._memory.get("cnt", -1), "unchanged": before == after})
+            events.append({"e": "done"})
     if before != after:
         meta["user_diff"] = [k for k in before if before[k] != after[k]]
     return {"ocfg": ocfg, "observed": observed, "events": events, "meta": meta}
